@@ -3,6 +3,7 @@ package main
 import (
 	"bytes"
 	"context"
+	"encoding/binary"
 	"fmt"
 	"hash/fnv"
 	"os"
@@ -34,6 +35,13 @@ import (
 //       nextOff   = start of the posting list that follows the last one of this name
 //       indexspec = <name hex>=<value hex>,<value hex>…(;…)*   one series {name="value"} per pair
 //     -> s=<kept table indices> l=<lastValOffset> v=<LabelValues as ranks> r=<start>:<end>|nf,…
+//   ih.names <names of all table entries as ranks, table order> <rank of ""|-> <indexspec> <n>
+//     -> LabelNames as ranks
+//   ih.sym <shift> <nameSymbols ref:x<hex>,…> <refs> <symbol table ref:x<hex>,…> <indexspec> <n>
+//       a sequence of LookupSymbol calls on a fresh header -> x<hex>|err per call
+//   ih.v1 0 <lastEnd> <table name.value.offset,…> <name> <wanted> <name hex> <wanted: x<hex>,…>
+//       the index in format v1 (the package's test fixture; indexspec "v1") -> v=<LabelValues> r=<ranges>
+//   indexspec may start with "e;" (the symbol table also holds "") or be "v1"
 //   o.ih.meta <n> <indexspec>    label names, symbols, single-value lookups against the full index
 
 func init() {
@@ -62,6 +70,9 @@ type c11Index struct {
 	values    map[string][]string
 	symbols   []string
 	lastLabel labels.Label // last entry of the whole table
+	version   int
+	symRefs   []uint32 // reference of symbols[i]: i for format v2, the offset in the index file for v1
+	symShift  uint32   // what LookupSymbol adds to a reference (v1)
 	headers   map[int]*indexheader.BinaryReader
 }
 
@@ -71,7 +82,10 @@ var c11CacheOrder []string
 func parseIndexSpec(spec string) (map[string][]string, []string, bool) {
 	m := map[string][]string{}
 	var order []string
-	for _, part := range strings.Split(spec, ";") {
+	for i, part := range strings.Split(spec, ";") {
+		if i == 0 && part == "e" { // the symbol table also holds the empty string (as Prometheus' head writes it)
+			continue
+		}
 		kv := strings.Split(part, "=")
 		if len(kv) != 2 {
 			return nil, nil, false
@@ -92,21 +106,26 @@ func parseIndexSpec(spec string) (map[string][]string, []string, bool) {
 	return m, order, true
 }
 
-func buildC11Index(spec string) (*c11Index, error) {
-	if ix, ok := c11Cache[spec]; ok {
-		return ix, nil
+// c11V1Fixture is the index in format v1 that ships with the package's tests (the writer of v1 is gone
+// from Prometheus, so v1 indexes cannot be generated).
+func c11V1Fixture() string {
+	repo := os.Getenv("VERIF_REPO")
+	if repo == "" {
+		repo = "/repo"
 	}
+	return filepath.Join(repo, "pkg/block/indexheader/testdata/index_format_v1/index")
+}
+
+func writeC11Index(spec, fn string) error {
 	m, _, ok := parseIndexSpec(spec)
 	if !ok {
-		return nil, fmt.Errorf("bad index spec")
+		return fmt.Errorf("bad index spec")
 	}
 	ctx := context.Background()
-	dir, err := os.MkdirTemp("", "verif-c11-")
-	if err != nil {
-		return nil, err
-	}
-	defer os.RemoveAll(dir)
 	symSet := map[string]struct{}{}
+	if strings.HasPrefix(spec, "e;") {
+		symSet[""] = struct{}{}
+	}
 	var lsets []labels.Labels
 	for n, vs := range m {
 		symSet[n] = struct{}{}
@@ -121,14 +140,13 @@ func buildC11Index(spec string) (*c11Index, error) {
 	}
 	sort.Strings(syms)
 	sort.Slice(lsets, func(i, j int) bool { return labels.Compare(lsets[i], lsets[j]) < 0 })
-	fn := filepath.Join(dir, "index")
 	w, err := index.NewWriter(ctx, fn)
 	if err != nil {
-		return nil, err
+		return err
 	}
 	for _, s := range syms {
 		if err := w.AddSymbol(s); err != nil {
-			return nil, err
+			return err
 		}
 	}
 	for i, l := range lsets {
@@ -136,10 +154,26 @@ func buildC11Index(spec string) (*c11Index, error) {
 			continue
 		}
 		if err := w.AddSeries(storage.SeriesRef(i+1), l); err != nil {
-			return nil, err
+			return err
 		}
 	}
-	if err := w.Close(); err != nil {
+	return w.Close()
+}
+
+func buildC11Index(spec string) (*c11Index, error) {
+	if ix, ok := c11Cache[spec]; ok {
+		return ix, nil
+	}
+	ctx := context.Background()
+	dir, err := os.MkdirTemp("", "verif-c11-")
+	if err != nil {
+		return nil, err
+	}
+	defer os.RemoveAll(dir)
+	fn := filepath.Join(dir, "index")
+	if spec == "v1" {
+		fn = c11V1Fixture()
+	} else if err := writeC11Index(spec, fn); err != nil {
 		return nil, err
 	}
 	raw, err := os.ReadFile(fn)
@@ -191,6 +225,30 @@ func buildC11Index(spec string) (*c11Index, error) {
 		return nil, err
 	}
 	ix.tableEnd = toc.PostingsTable
+	ix.version = int(raw[4])
+	if ix.version == index.FormatV1 {
+		// v1 symbol references are byte offsets into the index file: walk the symbols section
+		// (len <4b> | count <4b> | (uvarint len | bytes)*); the symbols themselves must be the ones the
+		// full reader lists
+		pos := int(toc.Symbols) + 8
+		cnt := int(binary.BigEndian.Uint32(raw[toc.Symbols+4:]))
+		if cnt != len(ix.symbols) {
+			return nil, fmt.Errorf("v1 symbols: %d in the section, %d listed", cnt, len(ix.symbols))
+		}
+		for i := 0; i < cnt; i++ {
+			l, k := binary.Uvarint(raw[pos:])
+			if k <= 0 || string(raw[pos+k:pos+k+int(l)]) != ix.symbols[i] {
+				return nil, fmt.Errorf("v1 symbols: entry %d is not %q", i, ix.symbols[i])
+			}
+			ix.symRefs = append(ix.symRefs, uint32(pos))
+			pos += k + int(l)
+		}
+		ix.symShift = 9 // the header file's own header is 14 bytes long, the index file's 5
+	} else {
+		for i := range ix.symbols {
+			ix.symRefs = append(ix.symRefs, uint32(i))
+		}
+	}
 	if err := index.ReadPostingsOffsetTable(c11BS(raw), toc.PostingsTable, func(name, value []byte, off uint64, labelOff int) error {
 		ix.table = append(ix.table, c11Entry{string(name), string(value), off, labelOff})
 		return nil
@@ -272,6 +330,149 @@ func (ix *c11Index) derived(name string, wanted []string) (nextOff uint64, tbl, 
 	return nextOff, hlib.Join(ts, ","), hlib.Join(ws, ","), rank
 }
 
+// c11CheckRanges is the oracle of a multi-value lookup: one answer per wanted value, in order; a value
+// is found iff the full index has the pair; the range is the full index's (the end of the very last
+// posting list of the table may be over-estimated, never under-estimated).
+func c11CheckRanges(c *hlib.Ctx, ix *c11Index, name string, wanted []string, rngs []index.Range, n int) {
+	if len(rngs) != len(wanted) {
+		c.Violation("result-length", fmt.Sprintf("%d ranges for %d values", len(rngs), len(wanted)))
+		return
+	}
+	for i, w := range wanted {
+		l := labels.Label{Name: name, Value: w}
+		exact, present := ix.ranges[l]
+		got := rngs[i]
+		switch {
+		case present && got == indexheader.NotFoundRange:
+			c.Violation("present-value-not-found", fmt.Sprintf("%q=%q (position %d of %d wanted, sampling %d) exists in the index but the header says not found", name, w, i, len(wanted), n))
+		case !present && got != indexheader.NotFoundRange:
+			c.Violation("absent-value-found", fmt.Sprintf("%q=%q does not exist but the header returns %v", name, w, got))
+		case present && got.Start != exact.Start:
+			c.Violation("range-start-mismatch", fmt.Sprintf("%q=%q: header %v, index %v", name, w, got, exact))
+		case present && l == ix.lastLabel && got.End < exact.End:
+			c.Violation("range-end-mismatch", fmt.Sprintf("%q=%q (last entry): header %v, index %v", name, w, got, exact))
+		case present && l != ix.lastLabel && got.End != exact.End:
+			c.Violation("range-end-mismatch", fmt.Sprintf("%q=%q: header %v, index %v", name, w, got, exact))
+		}
+	}
+}
+
+func c11ParseWanted(tok string) ([]string, bool) {
+	var wanted []string
+	for _, w := range hlib.Split(tok, ",") {
+		// every element carries the prefix "x", so that the empty string is not the empty list
+		if !strings.HasPrefix(w, "x") {
+			return nil, false
+		}
+		s := ""
+		if len(w) > 1 {
+			var ok bool
+			if s, ok = unhexS(w[1:]); !ok {
+				return nil, false
+			}
+		}
+		wanted = append(wanted, s)
+	}
+	return wanted, true
+}
+
+func c11HexList(ws []string) string {
+	hw := make([]string, len(ws))
+	for i, w := range ws {
+		hw[i] = "x"
+		if w != "" {
+			hw[i] += hlib.HexS(w)
+		}
+	}
+	return hlib.Join(hw, ",")
+}
+
+func c11Ranks(all map[string]struct{}) map[string]int {
+	sorted := make([]string, 0, len(all))
+	for s := range all {
+		sorted = append(sorted, s)
+	}
+	sort.Strings(sorted)
+	rank := map[string]int{}
+	for i, s := range sorted {
+		rank[s] = i
+	}
+	return rank
+}
+
+// derivedNames: the label names of all table entries, in table order, as ranks, and the rank of "".
+func (ix *c11Index) derivedNames() (string, string, map[string]int) {
+	all := map[string]struct{}{}
+	for _, e := range ix.table {
+		all[e.name] = struct{}{}
+	}
+	rank := c11Ranks(all)
+	var ns []string
+	if ix.version == index.FormatV1 {
+		// the v1 table is not sorted; the reader collects the names in a map and sorts them
+		// (sort.Strings: third party), so the model gets them sorted
+		es := append([]c11Entry(nil), ix.table...)
+		sort.SliceStable(es, func(i, j int) bool { return es[i].name < es[j].name })
+		for _, e := range es {
+			ns = append(ns, strconv.Itoa(rank[e.name]))
+		}
+	} else {
+		for _, e := range ix.table {
+			ns = append(ns, strconv.Itoa(rank[e.name]))
+		}
+	}
+	empty := "-"
+	if r, ok := rank[""]; ok {
+		empty = strconv.Itoa(r)
+	}
+	return hlib.Join(ns, ","), empty, rank
+}
+
+// derivedSymbols: the symbol table (reference the header's Symbols.Lookup understands ↦ symbol) and the
+// references of the label names (what the reader keeps in nameSymbols).
+func (ix *c11Index) derivedSymbols() (names, syms string) {
+	isName := map[string]bool{}
+	for _, e := range ix.table {
+		if e.name != "" {
+			isName[e.name] = true
+		}
+	}
+	var ns, ss []string
+	for i, sym := range ix.symbols {
+		ref := ix.symRefs[i] + ix.symShift
+		ent := fmt.Sprintf("%d:x%s", ref, hlib.HexS(sym))
+		if sym == "" {
+			ent = fmt.Sprintf("%d:x", ref)
+		}
+		ss = append(ss, ent)
+		if isName[sym] {
+			ns = append(ns, ent)
+		}
+	}
+	return hlib.Join(ns, ","), hlib.Join(ss, ",")
+}
+
+// derivedV1: the whole v1 table as name.value.offset with ranks, and the ranks of the wanted values.
+func (ix *c11Index) derivedV1(name string, wanted []string) (tbl, nm, wr string, vrank map[string]int) {
+	names, values := map[string]struct{}{name: {}, "": {}}, map[string]struct{}{} // "" has rank 0
+	for _, e := range ix.table {
+		names[e.name] = struct{}{}
+		values[e.value] = struct{}{}
+	}
+	for _, w := range wanted {
+		values[w] = struct{}{}
+	}
+	nrank, vrank := c11Ranks(names), c11Ranks(values)
+	var ts, ws []string
+	for _, e := range ix.table {
+		ts = append(ts, fmt.Sprintf("%d.%d.%d", nrank[e.name], vrank[e.value], e.off))
+	}
+	for _, w := range wanted {
+		ws = append(ws, strconv.Itoa(vrank[w]))
+	}
+	return hlib.Join(ts, ","), strconv.Itoa(nrank[name]), hlib.Join(ws, ","), vrank
+}
+
 func execC11(c *hlib.Ctx, tok []string) string {
 	if len(tok) == 0 {
 		return "bad-op"
@@ -286,20 +487,9 @@ func execC11(c *hlib.Ctx, tok []string) string {
 		if err != nil || n < 1 || !ok1 {
 			return "bad-op"
 		}
-		var wanted []string
-		for _, w := range hlib.Split(tok[7], ",") {
-			// every element carries the prefix "x", so that the empty string is not the empty list
-			if !strings.HasPrefix(w, "x") {
-				return "bad-op"
-			}
-			s := ""
-			if len(w) > 1 {
-				var ok bool
-				if s, ok = unhexS(w[1:]); !ok {
-					return "bad-op"
-				}
-			}
-			wanted = append(wanted, s)
+		wanted, ok := c11ParseWanted(tok[7])
+		if !ok {
+			return "bad-op"
 		}
 		if !sort.StringsAreSorted(wanted) {
 			return "bad-op"
@@ -373,31 +563,168 @@ func execC11(c *hlib.Ctx, tok []string) string {
 				}
 			}
 			rs = hlib.Join(parts, ",")
-			if len(rngs) != len(wanted) {
-				c.Violation("result-length", fmt.Sprintf("%d ranges for %d values", len(rngs), len(wanted)))
-			} else {
-				for i, w := range wanted {
-					l := labels.Label{Name: name, Value: w}
-					exact, present := ix.ranges[l]
-					got := rngs[i]
-					switch {
-					case present && got == indexheader.NotFoundRange:
-						c.Violation("present-value-not-found", fmt.Sprintf("%q=%q (position %d of %d wanted, sampling %d) exists in the index but the header says not found", name, w, i, len(wanted), n))
-					case !present && got != indexheader.NotFoundRange:
-						c.Violation("absent-value-found", fmt.Sprintf("%q=%q does not exist but the header returns %v", name, w, got))
-					case present && got.Start != exact.Start:
-						c.Violation("range-start-mismatch", fmt.Sprintf("%q=%q: header %v, index %v", name, w, got, exact))
-					case present && l == ix.lastLabel && got.End < exact.End:
-						c.Violation("range-end-mismatch", fmt.Sprintf("%q=%q (last entry): header %v, index %v", name, w, got, exact))
-					case present && l != ix.lastLabel && got.End != exact.End:
-						c.Violation("range-end-mismatch", fmt.Sprintf("%q=%q: header %v, index %v", name, w, got, exact))
-					}
-				}
-			}
+			c11CheckRanges(c, ix, name, wanted, rngs, n)
 		} else {
 			c.Violation("lookup-error", err.Error())
 		}
 		return fmt.Sprintf("s=%s l=%d v=%s r=%s", hlib.Join(kept, ","), lastVal, lvs, rs)
+	case "ih.names":
+		// ih.names <names of the table entries as ranks> <rank of ""|-> <indexspec> <n>
+		if len(tok) != 5 {
+			return "bad-op"
+		}
+		n, err := strconv.Atoi(tok[4])
+		if err != nil || n < 1 {
+			return "bad-op"
+		}
+		ix, err := buildC11Index(tok[3])
+		if err != nil {
+			return "bad-op"
+		}
+		ns, empty, rank := ix.derivedNames()
+		if tok[1] != ns || tok[2] != empty {
+			return "bad-op"
+		}
+		h, err := ix.header(n)
+		if err != nil {
+			return "err:" + err.Error()
+		}
+		names, err := h.LabelNames()
+		if err != nil {
+			return "err"
+		}
+		if strings.Join(names, "\x00") != strings.Join(ix.names, "\x00") {
+			c.Violation("label-names-mismatch", fmt.Sprintf("header %q, index %q", names, ix.names))
+		}
+		var rs []string
+		for _, nm := range names {
+			r, ok := rank[nm]
+			if !ok {
+				return "err:unknown-name"
+			}
+			rs = append(rs, strconv.Itoa(r))
+		}
+		return hlib.Join(rs, ",")
+	case "ih.sym":
+		// ih.sym <shift> <nameSymbols> <refs> <symbol table> <indexspec> <n>
+		if len(tok) != 7 {
+			return "bad-op"
+		}
+		n, err := strconv.Atoi(tok[6])
+		if err != nil || n < 1 {
+			return "bad-op"
+		}
+		ix, err := buildC11Index(tok[5])
+		if err != nil {
+			return "bad-op"
+		}
+		ns, ss := ix.derivedSymbols()
+		if tok[1] != fmt.Sprint(ix.symShift) || tok[2] != ns || tok[4] != ss {
+			return "bad-op"
+		}
+		// a fresh header: the symbol cache starts empty
+		h, err := indexheader.NewBinaryReader(context.Background(), log.NewNopLogger(), ix.bkt, "", ix.id, n, indexheader.NewBinaryReaderMetrics(nil))
+		if err != nil {
+			return "err:" + err.Error()
+		}
+		defer h.Close()
+		byRef := map[uint32]string{}
+		for i, sym := range ix.symbols {
+			byRef[ix.symRefs[i]] = sym
+		}
+		var out []string
+		bad := 0
+		for _, f := range hlib.Split(tok[3], ",") {
+			ref, err := strconv.ParseUint(f, 10, 32)
+			if err != nil {
+				return "bad-op"
+			}
+			got, err := h.LookupSymbol(context.Background(), uint32(ref))
+			want, present := byRef[uint32(ref)]
+			if ix.version == index.FormatV1 && !present && int(ref) < int(ix.tableEnd) {
+				return "bad-op" // v1: a reference into the middle of the file decodes as whatever is there
+			}
+			switch {
+			case err != nil:
+				out = append(out, "err")
+				if present {
+					bad++
+				}
+			case got == "":
+				out = append(out, "x")
+				if !present || want != "" {
+					bad++
+				}
+			default:
+				out = append(out, "x"+hlib.HexS(got))
+				if !present || want != got {
+					bad++
+				}
+			}
+		}
+		if bad > 0 {
+			c.Violation("symbol-mismatch", fmt.Sprintf("%d lookups in a sequence of %d differ from the full index", bad, len(out)))
+		}
+		return hlib.Join(out, ",")
+	case "ih.v1":
+		// ih.v1 0 <lastEnd> <table> <name> <wanted> <name hex> <wanted: x<hex>,…>     (0 = the rank of "")
+		if len(tok) != 8 || tok[1] != "0" {
+			return "bad-op"
+		}
+		tok = tok[1:]
+		name, ok1 := unhexS(tok[5])
+		if tok[5] == "-" {
+			name, ok1 = "", true
+		}
+		wanted, ok2 := c11ParseWanted(tok[6])
+		if !ok1 || !ok2 {
+			return "bad-op"
+		}
+		ix, err := buildC11Index("v1")
+		if err != nil {
+			return "bad-op"
+		}
+		tbl, nm, wr, vrank := ix.derivedV1(name, wanted)
+		if tok[1] != fmt.Sprint(ix.tableEnd) || tok[2] != tbl || tok[3] != nm || tok[4] != wr {
+			return "bad-op"
+		}
+		h, err := ix.header(32)
+		if err != nil {
+			return "err:" + err.Error()
+		}
+		lv, err := h.LabelValues(name)
+		lvs := "err"
+		if err == nil {
+			var rs []string
+			for _, v := range lv {
+				rs = append(rs, strconv.Itoa(vrank[v]))
+			}
+			lvs = hlib.Join(rs, ",")
+			if strings.Join(lv, "\x00") != strings.Join(ix.values[name], "\x00") && name != "" {
+				c.Violation("label-values-mismatch", fmt.Sprintf("v1 LabelValues(%q): header %q, full index %q", name, lv, ix.values[name]))
+			}
+		}
+		rngs, err := h.PostingsOffsets(name, wanted...)
+		rs := "err"
+		if err == nil {
+			var parts []string
+			for _, r := range rngs {
+				if r == indexheader.NotFoundRange {
+					parts = append(parts, "nf")
+				} else {
+					parts = append(parts, fmt.Sprintf("%d:%d", r.Start, r.End))
+				}
+			}
+			rs = hlib.Join(parts, ",")
+			if _, known := ix.values[name]; known || name == "" {
+				c11CheckRanges(c, ix, name, wanted, rngs, 0)
+			} else if len(rngs) != 0 {
+				c.Violation("unknown-name", fmt.Sprintf("unknown label name: %v", rngs))
+			}
+		} else {
+			c.Violation("lookup-error", err.Error())
+		}
+		return fmt.Sprintf("v=%s r=%s", lvs, rs)
 	case "o.ih.meta":
 		if len(tok) != 3 {
 			return "bad-op"
@@ -420,12 +747,12 @@ func execC11(c *hlib.Ctx, tok []string) string {
 		}
 		bad := 0
 		for i, s := range ix.symbols {
-			got, err := h.LookupSymbol(context.Background(), uint32(i))
+			got, err := h.LookupSymbol(context.Background(), ix.symRefs[i])
 			if err != nil || got != s {
 				bad++
 			}
 			// a second lookup is served by the header's symbol cache
-			got, err = h.LookupSymbol(context.Background(), uint32(i))
+			got, err = h.LookupSymbol(context.Background(), ix.symRefs[i])
 			if err != nil || got != s {
 				bad++
 			}
@@ -447,7 +774,11 @@ func execC11(c *hlib.Ctx, tok []string) string {
 				c.Violation("symbol-mismatch", fmt.Sprintf("%d interleaved lookups of symbols 1024 apart differ from the full index", bad2))
 			}
 		}
-		if _, err := h.LookupSymbol(context.Background(), uint32(len(ix.symbols))); err == nil {
+		past := uint32(len(ix.symbols))
+		if ix.version == index.FormatV1 {
+			past = uint32(ix.tableEnd) + 100000 // v1 references are offsets
+		}
+		if _, err := h.LookupSymbol(context.Background(), past); err == nil {
 			c.Violation("symbol-mismatch", "lookup past the last symbol succeeds")
 		}
 		// single-value API and unknown names
@@ -572,7 +903,130 @@ func genIndexSpec(c *hlib.Ctx, n int) (string, map[string][]string, []string) {
 		}
 		parts = append(parts, hlib.HexS(name)+"="+strings.Join(hv, ","))
 	}
-	return strings.Join(parts, ";"), m, names
+	spec := strings.Join(parts, ";")
+	if r.Chance(1, 3) {
+		spec = "e;" + spec
+		c.Count("index:empty-string-symbol")
+	}
+	return spec, m, names
+}
+
+// c11GenNamesSyms: LabelNames and a sequence of symbol lookups on a fresh header.
+func c11GenNamesSyms(c *hlib.Ctx, ix *c11Index, spec string, n int) {
+	r := c.R
+	ns, empty, _ := ix.derivedNames()
+	c.Do(fmt.Sprintf("ih.names %s %s %s %d", ns, empty, spec, n), true)
+	names, syms := ix.derivedSymbols()
+	isName := map[string]bool{}
+	for _, e := range ix.table {
+		isName[e.name] = true
+	}
+	var refs []string
+	add := func(i int, kind string) {
+		refs = append(refs, fmt.Sprint(ix.symRefs[i]))
+		c.Count("symref:" + kind)
+		if ix.symbols[i] == "" {
+			c.Count("symref:empty-string")
+		} else if isName[ix.symbols[i]] {
+			c.Count("symref:label-name")
+		}
+	}
+	k := r.Range(4, 40)
+	for j := 0; j < k; j++ {
+		i := r.Intn(len(ix.symbols))
+		switch r.Intn(8) {
+		case 0: // twice in a row: the second one is a cache hit
+			add(i, "repeat")
+			add(i, "repeat")
+		case 1: // two references that share a cache slot, interleaved
+			if ix.version != index.FormatV1 && i+1024 < len(ix.symbols) {
+				for _, x := range []int{i, i + 1024, i, i + 1024} {
+					add(x, "same-slot")
+				}
+			} else if ix.version == index.FormatV1 {
+				// v1 references are offsets: look for another symbol whose reference is congruent
+				for x := range ix.symbols {
+					if x != i && (ix.symRefs[x]+ix.symShift)%1024 == (ix.symRefs[i]+ix.symShift)%1024 {
+						for _, y := range []int{i, x, i, x} {
+							add(y, "same-slot")
+						}
+						break
+					}
+				}
+			}
+		case 2: // past the end
+			if ix.version == index.FormatV1 {
+				refs = append(refs, fmt.Sprint(int(ix.tableEnd)+r.Range(100000, 200000)))
+			} else {
+				refs = append(refs, fmt.Sprint(len(ix.symbols)+r.Intn(3)*1024))
+			}
+			c.Count("symref:out-of-range")
+		case 3:
+			add(0, "first")
+			add(len(ix.symbols)-1, "last")
+		default:
+			add(i, "plain")
+		}
+	}
+	c.Do(fmt.Sprintf("ih.sym %d %s %s %s %s %d", ix.symShift, names, hlib.Join(refs, ","), syms, spec, n), true)
+}
+
+// c11GenV1: the only index in format v1 there is — the package's test fixture.
+func c11GenV1(c *hlib.Ctx) {
+	r := c.R
+	ix, err := buildC11Index("v1")
+	if err != nil {
+		c.Note("v1 fixture not usable: " + err.Error())
+		return
+	}
+	c.Count("index:format-v1")
+	c.Do("o.ih.meta 32 v1", true)
+	for q := 0; q < c.N(2, 6); q++ {
+		c11GenNamesSyms(c, ix, "v1", 32)
+	}
+	names := append([]string{"", "no-such-name"}, ix.names...)
+	for _, name := range names {
+		var vs []string
+		for _, e := range ix.table {
+			if e.name == name {
+				vs = append(vs, e.value)
+			}
+		}
+		sort.Strings(vs)
+		for q := 0; q < c.N(6, 20); q++ {
+			var wanted []string
+			if len(vs) == 0 {
+				wanted = []string{"a", "b"}[:r.Intn(3)]
+			} else {
+				wanted = genWanted(c, vs)
+			}
+			if q == 0 {
+				wanted = vs // every value, none missing
+			}
+			absent := 0
+			for _, w := range wanted {
+				if _, ok := ix.ranges[labels.Label{Name: name, Value: w}]; !ok {
+					absent++
+				}
+			}
+			switch {
+			case len(vs) == 0:
+				c.Count("v1:unknown-name")
+			case absent == 0:
+				c.Count("v1:all-present")
+			case absent == len(wanted):
+				c.Count("v1:all-absent")
+			default:
+				c.Count("v1:some-absent")
+			}
+			tbl, nm, wr, _ := ix.derivedV1(name, wanted)
+			hn := hlib.HexS(name)
+			if name == "" {
+				hn = "-"
+			}
+			c.Do(fmt.Sprintf("ih.v1 0 %d %s %s %s %s %s", ix.tableEnd, tbl, nm, wr, hn, c11HexList(wanted)), len(wanted) > 0)
+		}
+	}
 }
 
 func genWanted(c *hlib.Ctx, vs []string) []string {
@@ -630,8 +1084,15 @@ func genC11(c *hlib.Ctx) {
 			hv = append(hv, hlib.HexS(fmt.Sprintf("val%05d", i)))
 		}
 		c.Count("index:more-than-1024-symbols")
-		c.Do(fmt.Sprintf("o.ih.meta %d %s", r.Range(1, 64), hlib.HexS("big")+"="+strings.Join(hv, ",")), true)
+		spec := hlib.HexS("big") + "=" + strings.Join(hv, ",")
+		c.Do(fmt.Sprintf("o.ih.meta %d %s", r.Range(1, 64), spec), true)
+		if ix, err := buildC11Index(spec); err == nil {
+			for q := 0; q < c.N(3, 12); q++ {
+				c11GenNamesSyms(c, ix, spec, 32)
+			}
+		}
 	}
+	c11GenV1(c)
 	indexes := c.N(40, 260) // (every op line carries the index spec: ~2 KB per line)
 	for it := 0; it < indexes; it++ {
 		n := []int{1, 2, 3, 4, 5, 8, 16, 32, 64, r.Range(1, 64)}[r.Intn(10)]
@@ -641,6 +1102,7 @@ func genC11(c *hlib.Ctx) {
 			c.Note("index build failed: " + err.Error())
 			continue
 		}
+		c11GenNamesSyms(c, ix, spec, n)
 		// several sampling rates on the same index
 		rates := []int{n, r.Range(1, 64), []int{1, 2, 3, 5, 32}[r.Intn(5)]}
 		for _, rate := range rates {
